@@ -523,21 +523,7 @@ func everyIterationPasses(c *eng.Ctx, fn *ssa.Function, s eng.Site, sub, want st
 		c.Check(false, sub, s.Instr, fn, want, "the site is not written in the loop's function body (unrecognised shape)")
 		return
 	}
-	var header *ssa.BasicBlock
-	for _, h := range fn.Blocks {
-		if !h.Dominates(sb) {
-			continue
-		}
-		isHeader := false
-		for _, pr := range h.Preds {
-			if h.Dominates(pr) && reaches(sb, pr) {
-				isHeader = true
-			}
-		}
-		if isHeader && (header == nil || header.Dominates(h)) {
-			header = h
-		}
-	}
+	header := innermostLoop(fn, sb)
 	if header == nil {
 		c.Check(false, sub, s.Instr, fn, want, "the site is not inside a loop")
 		return
@@ -554,8 +540,14 @@ func everyIterationPasses(c *eng.Ctx, fn *ssa.Function, s eng.Site, sub, want st
 	c.Check(bad == "", sub, s.Instr, fn, want, bad)
 }
 
-func reaches(from, to *ssa.BasicBlock) bool {
+func reaches(from, to *ssa.BasicBlock) bool { return reachesAvoid(from, to, nil) }
+
+// reachesAvoid: a path from -> to exists that does not pass through avoid (from == avoid is allowed as a start only when from == to is not needed).
+func reachesAvoid(from, to, avoid *ssa.BasicBlock) bool {
 	seen := map[*ssa.BasicBlock]bool{}
+	if avoid != nil && from != avoid {
+		seen[avoid] = true
+	}
 	st := []*ssa.BasicBlock{from}
 	for len(st) > 0 {
 		x := st[len(st)-1]
@@ -570,4 +562,92 @@ func reaches(from, to *ssa.BasicBlock) bool {
 		st = append(st, x.Succs...)
 	}
 	return false
+}
+
+// innermostLoop returns the header of the innermost natural loop whose body contains block b (nil when b is in no loop).
+func innermostLoop(fn *ssa.Function, b *ssa.BasicBlock) *ssa.BasicBlock {
+	var header *ssa.BasicBlock
+	for _, h := range fn.Blocks {
+		if !h.Dominates(b) {
+			continue
+		}
+		isHeader := false
+		for _, pr := range h.Preds {
+			if h.Dominates(pr) && reachesAvoid(b, pr, h) {
+				isHeader = true
+			}
+		}
+		if isHeader && (header == nil || header.Dominates(h)) {
+			header = h
+		}
+	}
+	return header
+}
+
+// loopsOf lists the headers of all loops containing b, innermost first.
+func loopsOf(fn *ssa.Function, b *ssa.BasicBlock) []*ssa.BasicBlock {
+	var out []*ssa.BasicBlock
+	for _, h := range fn.Blocks {
+		if !h.Dominates(b) {
+			continue
+		}
+		for _, pr := range h.Preds {
+			if h.Dominates(pr) && reachesAvoid(b, pr, h) {
+				out = append(out, h)
+				break
+			}
+		}
+	}
+	sort.Slice(out, func(i, j int) bool { return out[j].Dominates(out[i]) && out[i] != out[j] })
+	return out
+}
+
+// groupingIntersectsPerTagKey (shared by C10 and C11): a group-by over several tag keys keeps a series only if it has EVERY key:
+// inside the per-key loop of GetGroupingContext the candidate set is intersected with the series of that key alone - the
+// intersection is executed in every iteration and its operand is a set that starts empty in every iteration.
+func groupingIntersectsPerTagKey(c *eng.Ctx) {
+	p := c.P
+	f := c.Fn("index.forwardIndex.GetGroupingContext")
+	gs := c.One(f, eng.CallTo("index.forwardIndex.getGroupingScanners"), "getGroupingScanners(tagKeyID, …)")
+	loop := innermostLoop(f, gs.Instr.Block())
+	if loop == nil {
+		c.Undecided("getGroupingScanners is not called in a loop over the group-by tag keys")
+	}
+	inLoop := func(b *ssa.BasicBlock) bool {
+		for _, h := range loopsOf(f, b) {
+			if h == loop {
+				return true
+			}
+		}
+		return false
+	}
+	ands := p.SitesDirect(f, eng.AnyCallTo("github.com/lindb/roaring.Bitmap.And"))
+	n := 0
+	for _, a := range ands {
+		n++
+		ok := innermostLoop(f, a.Instr.Block()) == loop
+		c.Check(ok, fmt.Sprintf("and-per-key[%d]", n), a.Instr, f,
+			"the candidate series are intersected with each tag key's series inside the per-key loop", "the intersection is not a statement of the loop over the group-by tag keys")
+		if !ok {
+			continue
+		}
+		everyIterationPasses(c, f, a, fmt.Sprintf("and-every-key[%d]", n), "every tag key's iteration reaches the intersection")
+		arg := eng.Unwrap(eng.CallArgs(a.Instr.(ssa.CallInstruction))[0])
+		fresh := false
+		detail := "operand " + p.Desc(arg)
+		if cl, isCall := arg.(*ssa.Call); isCall && inLoop(cl.Block()) {
+			fresh = true
+		} else {
+			// or the set is emptied at the start of the iteration
+			for _, s := range p.SitesDirect(f, eng.AnyCallTo("github.com/lindb/roaring.Bitmap.Clear")) {
+				if eng.Unwrap(eng.CallRecv(s.Instr.(ssa.CallInstruction))) == arg && inLoop(s.Instr.Block()) &&
+					eng.DominatedBy(f, a.Instr, []eng.Site{s}, nil) {
+					fresh = true
+				}
+			}
+			detail += " is created outside the per-key loop and not cleared in it: it still holds the previous keys' series"
+		}
+		c.Check(fresh, fmt.Sprintf("operand-fresh-per-key[%d]", n), a.Instr, f, "the operand of the intersection holds the series of the CURRENT tag key only", detail)
+	}
+	c.Check(n >= 1, "and-found", nil, f, "GetGroupingContext intersects the candidates with the tag keys' series", fmt.Sprintf("%d", n))
 }
